@@ -9,6 +9,7 @@ ALL = ['C%02d' % i for i in range(1, 19)]
 
 # behaviour that the statement of a property includes although the clause is tagged for another one
 DEPS = {
+    'C02': ['C03'],             # "whose RFC 5892 rule is satisfied at that position": acceptance depends on the rules deciding correctly
     'C06': ['C12', 'C13'],      # "map every Zs ... strip ... collapse" and "permitted number of re-applications"
     'C08': ['C06', 'C13'],      # Nickname half: re-validation every round + fixed point
     'C07': ['C13'],             # Nickname comparison form is iterated to stability
@@ -78,3 +79,12 @@ def counts_for(tag, prop):
         if d in ps:
             return True
     return False
+
+# exhaustive native evaluation of a complete finite domain (kind X: not deductive, labelled as such)
+EXHAUSTIVE = {
+    'C14': ['derived'],     # both classes, both entry points, 0..=0x10FFFF + boundary values: decision list over the UCD oracle incl. has_compat == (NFKC(cp) != cp)
+    'C01': ['derived'],     # no panic in classification for any scalar / surrogate / boundary value (has_compat is outside the verified set)
+    'C08': ['lower_valid'],
+}
+# which executable clause set of the replay tool belongs to a property
+NATIVE_SET = {'C08': 'C08known'}
